@@ -495,8 +495,10 @@ def run_verus(path, timeout=600, extra=()):
 # --------------------------------------------------------------------------
 
 def write_evidence(pid, ev):
-    os.makedirs(os.path.join(VERIF, "evidence"), exist_ok=True)
-    path = os.path.join(VERIF, "evidence", pid + ".json")
+    # runs against a patched copy of the repository (lib/seedtest.py) must not overwrite the evidence of /repo
+    evdir = os.environ.get("VERIF_EVIDENCE_DIR") or os.path.join(VERIF, "evidence")
+    os.makedirs(evdir, exist_ok=True)
+    path = os.path.join(evdir, pid + ".json")
     tmp = path + ".tmp"
     with open(tmp, "w") as f:
         json.dump(ev, f, indent=1, sort_keys=False)
